@@ -46,6 +46,9 @@ type callSpec struct {
 	spread  bool                                // the call may pass its last argument with ... (the template sees the slice)
 	check   func(x *tr, c *ast.CallExpr) string // extra condition on the call; non-empty = why it is outside the fragment
 	unwrap  bool                                // f(g(..)) as a statement is the statement g(..): f only inspects the error g returns
+	bres    bool                                // the state template returns a bres over the effect names in sub: BOk results state | BRange state | BPanic p state
+	sub     []string
+	lazy    bool // only the arguments the rendering mentions are translated (the others feed a text the model does not keep)
 }
 
 type target struct {
@@ -79,11 +82,18 @@ type target struct {
 	auto     bool                // undeclared calls of plain functions of the package are translated too, as auxiliary definitions aux_<name>
 	retTy    string              // Coq type of the returned value (inside retfmt): needed for a return inside a for loop
 	isAux    bool
+	okfmt    string            // result of a normal return with two slots: the returned values (tt if none), the effect state
+	panicFmt string            // what panic(x) yields, with one slot for x ("" = panicT)
+	nils     map[string]string // Coq type -> its nil value (kinds the translator does not know)
 }
 
 type untranslatable struct{ why string }
 
-type pend struct{ name, term string }
+type pend struct {
+	name, term string
+	let        bool // a binding `let 'name := term` (an effect of the expression on a tracked variable), not a partial operation
+	names      []string
+}
 
 // what continue / break / return mean inside the loop body being translated (nil = not available)
 type loopCtx struct {
@@ -374,10 +384,18 @@ func (x *tr) hoist(mark int, body func() string) string {
 	}
 	var names []string
 	for _, p := range ps {
-		names = append(names, p.name)
+		if p.let {
+			names = append(names, p.names...)
+		} else {
+			names = append(names, p.name)
+		}
 	}
 	inner := x.bind(names, body)
 	for i := len(ps) - 1; i >= 0; i-- {
+		if ps[i].let {
+			inner = fmt.Sprintf("let '%s := %s in\n  %s", ps[i].name, ps[i].term, inner)
+			continue
+		}
 		inner = fmt.Sprintf("match %s with\n  | None => %s\n  | Some %s => %s\n  end", scrut(ps[i].term), x.panicTerm(), ps[i].name, inner)
 	}
 	return inner
@@ -393,7 +411,7 @@ func (x *tr) noPending(mark int, n ast.Node) {
 func (x *tr) partial(term string) string {
 	x.npend++
 	nm := fmt.Sprintf("r%d_", x.npend)
-	x.pending = append(x.pending, pend{nm, term})
+	x.pending = append(x.pending, pend{name: nm, term: term})
 	x.bound[nm]++ // in scope for the rest of the expression; hoist re-binds it around the body
 	return nm
 }
@@ -401,8 +419,77 @@ func (x *tr) partial(term string) string {
 func (x *tr) hoistDone(mark int) {
 	// names handed out by partial() stay bound only until the statement is assembled
 	for _, p := range x.pending[mark:] {
+		if p.let {
+			for _, n := range p.names {
+				x.bound[n]--
+			}
+			continue
+		}
 		x.bound[p.name]--
 	}
+}
+
+// sliceVar: e is a slice the target tracks by name (a local, a parameter, a receiver field among the
+// effects): its Coq name
+func (x *tr) sliceVar(e ast.Expr) (string, bool) {
+	switch z := e.(type) {
+	case *ast.Ident:
+		if _, ok := x.p.TypesInfo.Uses[z].(*types.Var); ok && x.pkgVar(z) == "" {
+			return x.objName(x.p.TypesInfo.Uses[z], z.Name), true
+		}
+	case *ast.SelectorExpr:
+		if id, ok := z.X.(*ast.Ident); ok && id.Name == x.recv {
+			nm := sanitize(src(z))
+			for _, ef := range x.t.effects {
+				if ef == nm {
+					return nm, true
+				}
+			}
+		}
+	}
+	return "", false
+}
+
+// copyCall: copy(dst, src) where dst is a tracked slice V or V[a:]: V is rebound to its new contents
+// (a let hoisted in front of the statement, in evaluation order); the value is the count
+func (x *tr) copyCall(c *ast.CallExpr) string {
+	if len(c.Args) != 2 {
+		x.bad(c, "copy form")
+	}
+	var v, from string
+	switch d := c.Args[0].(type) {
+	case *ast.SliceExpr:
+		nm, ok := x.sliceVar(d.X)
+		if !ok || d.High != nil || d.Slice3 || d.Low == nil || x.kindOf(d.Low) != "Z" {
+			x.bad(c, "copy into something that is not a tracked slice")
+		}
+		v, from = nm, x.expr(d.Low)
+	default:
+		nm, ok := x.sliceVar(d)
+		if !ok {
+			x.bad(c, "copy into something that is not a tracked slice")
+		}
+		v, from = nm, "0"
+	}
+	if x.kindOf(c.Args[0]) != "gslice" {
+		x.bad(c, "copy into something that is not a byte slice")
+	}
+	srcT := x.expr(c.Args[1])
+	switch x.kindOf(c.Args[1]) {
+	case "gslice":
+		srcT = "(sl_bytes " + srcT + ")"
+	case "bytes":
+	default:
+		x.bad(c, "copy from something that is not bytes")
+	}
+	x.use(v)
+	r := x.partial(fmt.Sprintf("sl_copy_at %s %s %s", v, paren(from), srcT)) // None: the slice expression dst[a:] is out of range
+	x.npend++
+	cnt := fmt.Sprintf("r%d_", x.npend)
+	x.pending = append(x.pending, pend{name: "(" + cnt + ", " + v + ")", term: r, let: true, names: []string{cnt, v}})
+	x.bound[cnt]++
+	x.bound[v]++
+	return cnt
 }
 
 // callKey names the callee: "LWs.WriteLeveled", "*Entry.Warn", "LogWriter.Write", "fmt.Sprintf", "len", "collectWrittenBytes"
@@ -572,6 +659,9 @@ func (x *tr) nilTestOf(kind string, n ast.Node) string {
 }
 
 func (x *tr) nilOf(kind string, n ast.Node) string {
+	if v, ok := x.t.nils[kind]; ok {
+		return v
+	}
 	switch {
 	case kind == "error":
 		return "err_nil"
@@ -654,6 +744,19 @@ func (x *tr) expr(e ast.Expr) string {
 			}
 		}
 		return x.use(sanitize(src(z)))
+	case *ast.CompositeLit:
+		if x.t.strict {
+			if _, isSlice := x.p.TypesInfo.TypeOf(z).Underlying().(*types.Slice); isSlice && strings.HasPrefix(x.kindOf(z), "list ") {
+				var els []string
+				for _, e := range z.Elts {
+					if _, kv := e.(*ast.KeyValueExpr); kv {
+						x.bad(z, "keyed slice literal")
+					}
+					els = append(els, x.expr(e))
+				}
+				return "[" + strings.Join(els, "; ") + "]"
+			}
+		}
 	case *ast.StarExpr:
 		if nm, ok := x.deref(z); ok {
 			return x.use(nm)
@@ -780,6 +883,18 @@ func (x *tr) expr(e ast.Expr) string {
 			}
 		}
 	case *ast.SliceExpr:
+		if x.t.strict && !z.Slice3 && x.kindOf(z.X) == "gslice" {
+			// a byte slice is (visible part, spare capacity): re-slicing can reach into the spare part
+			b := paren(x.expr(z.X))
+			switch {
+			case z.Low == nil && z.High != nil:
+				return x.partial("sl_to " + b + " " + paren(x.expr(z.High)))
+			case z.Low != nil && z.High == nil:
+				return x.partial("sl_from " + b + " " + paren(x.expr(z.Low)))
+			case z.Low != nil && z.High != nil:
+				return x.partial("sl_range " + b + " " + paren(x.expr(z.Low)) + " " + paren(x.expr(z.High)))
+			}
+		}
 		// t[:n] / t[n:] on a string: panics outside 0..len(t)
 		if x.t.strict && z.Low == nil && z.High != nil && !z.Slice3 && x.kindOf(z.X) == "bytes" && x.kindOf(z.High) == "Z" {
 			return x.partial("str_prefix " + paren(x.expr(z.X)) + " " + paren(x.expr(z.High)))
@@ -791,6 +906,9 @@ func (x *tr) expr(e ast.Expr) string {
 			return x.partial("str_slice " + paren(x.expr(z.X)) + " " + paren(x.expr(z.Low)) + " " + paren(x.expr(z.High)))
 		}
 	case *ast.IndexExpr:
+		if x.t.strict && x.kindOf(z.X) == "gslice" && x.kindOf(z.Index) == "Z" {
+			return x.partial("sl_at " + paren(x.expr(z.X)) + " " + paren(x.expr(z.Index)))
+		}
 		// s[i] on a string: the byte as a number; panics outside 0..len(s)-1
 		if x.t.strict && x.kindOf(z.X) == "bytes" && x.kindOf(z.Index) == "Z" {
 			return x.partial("str_at " + paren(x.expr(z.X)) + " " + paren(x.expr(z.Index)))
@@ -822,9 +940,12 @@ func (x *tr) expr(e ast.Expr) string {
 					x.bad(z, why)
 				}
 			}
-			args := make([]string, len(z.Args))
-			for i, a := range z.Args {
-				args[i] = x.expr(a)
+			var args []string
+			if !cs.lazy {
+				args = make([]string, len(z.Args))
+				for i, a := range z.Args {
+					args[i] = x.expr(a)
+				}
 			}
 			t := x.fillWith(cs.pure, z, args)
 			if cs.partial {
@@ -881,10 +1002,21 @@ func (x *tr) expr(e ast.Expr) string {
 				if len(z.Args) == 1 {
 					return "(to_lower " + x.expr(z.Args[0]) + ")"
 				}
-			case "len":
+			case "copy":
+				return x.copyCall(z)
+			case "len", "cap":
+				if x.kindOf(z.Args[0]) == "gslice" {
+					return "(sl_" + key + " " + x.expr(z.Args[0]) + ")"
+				}
+				if key == "cap" {
+					break
+				}
 				if k := x.kindOf(z.Args[0]); k == "bytes" || strings.HasPrefix(k, "list ") {
 					return "(Z.of_nat (List.length " + x.expr(z.Args[0]) + "))"
 				}
+			}
+			if tv, ok := x.p.TypesInfo.Types[z.Fun]; ok && tv.IsType() && len(z.Args) == 1 && x.kindOf(z.Args[0]) == "gslice" && x.coqType(tv.Type) == "bytes" {
+				return "(sl_bytes " + x.expr(z.Args[0]) + ")" // string(b)
 			}
 			if tv, ok := x.p.TypesInfo.Types[z.Fun]; ok && tv.IsType() && len(z.Args) == 1 {
 				// conversion T(x) between integer types: the identity on Z (DESIGN.md 2.1: int, Level,
@@ -906,6 +1038,9 @@ func (x *tr) expr(e ast.Expr) string {
 						if !ds {
 							return fmt.Sprintf("(%s mod %d)", x.expr(z.Args[0]), new(big.Int).Lsh(big.NewInt(1), uint(dbits)))
 						}
+						// into a narrower signed type: two's complement wrap
+						half := new(big.Int).Lsh(big.NewInt(1), uint(dbits-1))
+						return fmt.Sprintf("((%s + %d) mod %d - %d)", x.expr(z.Args[0]), half, new(big.Int).Lsh(big.NewInt(1), uint(dbits)), half)
 					}
 				}
 			}
@@ -957,7 +1092,7 @@ func (x *tr) expr(e ast.Expr) string {
 // variable, the target of a pointer) is only translated if the target hands that binder back - in its
 // final expression or as threaded effect state; otherwise the write would be lost silently
 func (x *tr) stateWrite(lhs ast.Expr, nm string) {
-	if _, isLocal := lhs.(*ast.Ident); isLocal && !strings.HasPrefix(nm, "g_") {
+	if _, isLocal := lhs.(*ast.Ident); isLocal && !strings.HasPrefix(nm, "g_") && !strings.HasPrefix(nm, "m_") {
 		return
 	}
 	for _, e := range x.t.effects {
@@ -1048,6 +1183,9 @@ func (x *tr) zeroOfKind(k string, n ast.Node) string {
 	if !x.t.strict {
 		return zeroOf(k)
 	}
+	if v, ok := x.t.nils[k]; ok {
+		return v
+	}
 	switch {
 	case k == "Z":
 		return "0"
@@ -1106,6 +1244,24 @@ func (x *tr) outerAssignedIn(stmts []ast.Stmt, lo, hi token.Pos) []string {
 	pos := map[string]token.Pos{}
 	add := func(l ast.Expr) {
 		if x.ignorable(l) {
+			return
+		}
+		if ie, ok := l.(*ast.IndexExpr); ok {
+			// m[k] = v / m[i][k] = v on a package-level map, v[i] = c on a tracked slice
+			base := ie.X
+			if inner, ok := base.(*ast.IndexExpr); ok {
+				base = inner.X
+			}
+			nm := ""
+			if name := x.pkgVar(base); name != "" {
+				nm = "m_" + name
+			} else if v, ok := x.sliceVar(base); ok {
+				nm = v
+			}
+			if nm != "" && !seen[nm] {
+				seen[nm] = true
+				out = append(out, nm)
+			}
 			return
 		}
 		var at token.Pos
@@ -1180,7 +1336,7 @@ func (x *tr) abrupt(stmts []ast.Stmt) bool {
 				found = true // (a three-clause loop can run out of its declared fuel: that ends the function like a panic)
 			case *ast.CallExpr:
 				switch key := x.callKey(z); key {
-				case "panic", "os.Exit", "strings.Repeat":
+				case "panic", "os.Exit", "strings.Repeat", "copy":
 					found = true
 				default:
 					if cs, ok := x.t.calls[key]; ok && (cs.tail != "" || cs.partial) {
@@ -1271,6 +1427,30 @@ func (x *tr) effectCallWith(c *ast.CallExpr, cs callSpec, lhs []string, n ast.No
 		return tail()
 	case cs.state != "":
 		names := append(append([]string{}, lhs...), x.t.effects...)
+		if cs.bres {
+			// the callee returns a bres over (a part of) the effect state: a panic of the callee is a panic
+			// of this function, with the state the callee left behind
+			back := "let '" + patTuple(cs.sub) + " := st_ in "
+			if len(cs.sub) == 1 {
+				back = "let " + cs.sub[0] + " := st_ in "
+			}
+			resPat := "_"
+			if len(lhs) > 0 {
+				resPat = "r_"
+			}
+			body := x.bind(append(append([]string{}, lhs...), cs.sub...), tail)
+			open := back
+			if len(lhs) > 0 {
+				if len(lhs) == 1 {
+					open += "let " + lhs[0] + " := r_ in "
+				} else {
+					open += "let '" + patTuple(lhs) + " := r_ in "
+				}
+			}
+			st := tuple(x.t.effects)
+			return fmt.Sprintf("match %s with\n  | BOk %s st_ => %s\n  %s\n  | BRange st_ => %sBRange %s\n  | BPanic p_ st_ => %sBPanic p_ %s\n  end",
+				x.fillWith(cs.state, c, args), resPat, open, body, back, st, back, st)
+		}
 		if cs.partial {
 			// the callee can panic (None): that ends this function too
 			return fmt.Sprintf("match %s with\n  | None => %s\n  | Some %s => %s\n  end",
@@ -1341,6 +1521,14 @@ func (x *tr) results(z *ast.ReturnStmt) string {
 			continue
 		}
 		parts = append(parts, x.expr(r))
+	}
+	if x.t.okfmt != "" {
+		var effs []string
+		for _, e := range x.t.effects {
+			effs = append(effs, x.use(e))
+		}
+		v := fmt.Sprintf(x.t.okfmt, tuple(parts), tuple(effs))
+		return x.hoistStmt(mark, func() string { return v })
 	}
 	if x.t.strict {
 		for _, e := range x.t.effects {
@@ -1588,6 +1776,12 @@ func (x *tr) seq(stmts []ast.Stmt, k func() string) string {
 				}
 				switch key {
 				case "panic":
+					if x.t.panicFmt != "" && len(c.Args) == 1 && len(x.panics) == 0 && x.optLoop == 0 {
+						mark := len(x.pending)
+						a := x.expr(c.Args[0])
+						x.noPending(mark, c)
+						return fmt.Sprintf(x.t.panicFmt, a)
+					}
 					x.checkArgs(c)
 					return x.panicTerm()
 				}
@@ -1774,6 +1968,41 @@ func (x *tr) assignStrict(z *ast.AssignStmt, tail func() string) string {
 			x.expr(z.Rhs[i]) // must be pure and inside the fragment all the same
 			x.notes = append(x.notes, "ignored (untracked field): "+clip(src(z.Lhs[i])+" = "+src(z.Rhs[i])))
 			continue
+		}
+		if ie, ok := z.Lhs[i].(*ast.IndexExpr); ok && z.Tok == token.ASSIGN {
+			// m[k] = v on a package-level map: the table binder m_<name> with the key set (overwritten if present)
+			if name := x.pkgVar(ie.X); name != "" {
+				if mt, isMap := x.p.TypesInfo.TypeOf(ie.X).Underlying().(*types.Map); isMap && x.coqType(mt.Elem()) != "?" {
+					nm := x.use("m_" + name)
+					set := "mapZ_set"
+					if x.coqType(mt.Key()) == "bytes" {
+						set = "mapB_set"
+					} else if x.coqType(mt.Key()) != "Z" {
+						x.bad(z, "map write with a key type outside the fragment")
+					}
+					x.stateWrite(ie.X, nm)
+					names = append(names, nm)
+					vals = append(vals, fmt.Sprintf("(%s %s %s %s)", set, nm, paren(x.expr(ie.Index)), paren(x.expr(z.Rhs[i]))))
+					continue
+				}
+			}
+			// m[i][k] = v on a package-level map of maps: panics when the row m[i] is missing (a nil map)
+			if inner, ok := ie.X.(*ast.IndexExpr); ok {
+				if name := x.pkgVar(inner.X); name != "" && x.kindOf(inner.Index) == "Z" && x.kindOf(ie.Index) == "Z" {
+					nm := x.use("m_" + name)
+					x.stateWrite(inner.X, nm)
+					names = append(names, nm)
+					vals = append(vals, x.partial(fmt.Sprintf("map2_set %s %s %s %s", nm, paren(x.expr(inner.Index)), paren(x.expr(ie.Index)), paren(x.expr(z.Rhs[i])))))
+					continue
+				}
+			}
+			// v[i] = c on a tracked byte slice
+			if v, ok := x.sliceVar(ie.X); ok && x.kindOf(ie.X) == "gslice" && x.kindOf(ie.Index) == "Z" && x.kindOf(z.Rhs[i]) == "Z" {
+				x.use(v)
+				names = append(names, v)
+				vals = append(vals, x.partial("sl_set "+v+" "+paren(x.expr(ie.Index))+" "+paren(x.expr(z.Rhs[i]))))
+				continue
+			}
 		}
 		nm, _ := x.lhsName(z.Lhs[i])
 		lk, rk := x.exprKind(z.Lhs[i]), x.exprKind(z.Rhs[i])
@@ -2193,7 +2422,7 @@ func (x *tr) rangeStrict(z *ast.RangeStmt, tail func() string) string {
 		switch b := n.(type) {
 		case *ast.ReturnStmt:
 			hasRet = true
-			if len(x.named) == 0 {
+			if len(x.named) == 0 && x.t.retTy == "" {
 				x.bad(z, "return inside a loop of a function without named results")
 			}
 		case *ast.BranchStmt:
@@ -2214,13 +2443,15 @@ func (x *tr) rangeStrict(z *ast.RangeStmt, tail func() string) string {
 	if canPanic && x.t.panicT == "" {
 		x.bad(z, "operation that can panic inside a loop of a target without a panic outcome")
 	}
+	useRv := hasRet && len(x.named) == 0
 	vars := x.outerAssigned(z.Body.List)
-	if len(vars) == 0 {
+	if len(vars) == 0 && !useRv {
 		x.bad(z, "loop without a tracked effect")
 	}
 	for _, v := range vars {
 		x.use(v)
 	}
+	noneRv := "(@None " + paren(x.t.retTy) + ")"
 	// the fold state: the variables, then brk_ (the loop was left) and ret_ (.. by a return)
 	all := append([]string{}, vars...)
 	var init, cont, brk, ret []string
@@ -2228,8 +2459,12 @@ func (x *tr) rangeStrict(z *ast.RangeStmt, tail func() string) string {
 	if hasBrk || hasRet {
 		all, init, cont, brk, ret = append(all, "brk_"), append(init, "false"), append(cont, "false"), append(brk, "true"), append(ret, "true")
 	}
-	if hasRet {
+	if hasRet && !useRv {
 		all, init, cont, brk, ret = append(all, "ret_"), append(init, "false"), append(cont, "false"), append(brk, "false"), append(ret, "true")
+	}
+	if useRv {
+		// rv_: the value returned out of the loop, if any
+		all, init, cont, brk = append(all, "rv_"), append(init, noneRv), append(cont, noneRv), append(brk, noneRv)
 	}
 	wrap := func(t []string) func() string {
 		if canPanic {
@@ -2241,8 +2476,11 @@ func (x *tr) rangeStrict(z *ast.RangeStmt, tail func() string) string {
 	if hasBrk {
 		lc.brk = wrap(brk)
 	}
-	if hasRet {
+	if hasRet && !useRv {
 		lc.ret = wrap(ret)
+	}
+	if useRv {
+		lc.retv = func(v string) string { return wrap(append(append([]string{}, ret...), "Some "+paren(v)))() }
 	}
 	x.loops = append(x.loops, lc)
 	if canPanic {
@@ -2287,6 +2525,19 @@ func (x *tr) rangeStrict(z *ast.RangeStmt, tail func() string) string {
 		}
 		after = func() string {
 			return fmt.Sprintf("if (ret_ : bool) then %s\n  else %s", x.t.final, tail())
+		}
+		if useRv {
+			after = func() string {
+				parts := []string{"rv_"}
+				for _, e := range x.t.effects {
+					parts = append(parts, x.use(e))
+				}
+				v := tuple(parts)
+				if x.t.retfmt != "" {
+					v = fmt.Sprintf(x.t.retfmt, v)
+				}
+				return fmt.Sprintf("match rv_ with\n  | Some rv_ => %s\n  | None => %s\n  end", v, tail())
+			}
 		}
 	}
 	if canPanic {
@@ -2516,7 +2767,7 @@ func (x *tr) partialInside(stmts []ast.Stmt) bool {
 				}
 			case *ast.CallExpr:
 				key := x.callKey(z)
-				if cs, ok := x.t.calls[key]; (ok && cs.partial) || key == "strings.Repeat" || key == "panic" {
+				if cs, ok := x.t.calls[key]; (ok && cs.partial) || key == "strings.Repeat" || key == "panic" || key == "copy" {
 					found = true
 				}
 			}
